@@ -117,7 +117,8 @@ PROPS = {
         theorems=['C03_revert_exact', 'C03_no_trace', 'C03_ids_stable', 'C03_calltree', 'C03_vmerr_residue', 'C03_reverted_frame_no_trace',
                   'execNode_spec', 'execList_spec', 'framed_run', 'revertGo_frame', 'revert_ok', 'snapshot_ok', 'upd_ok'],
         engines=[dict(name='statedb', test='TestEngineStatedb', quick=6000, thorough=120000, thorough_seeds=3),
-                 dict(name='calltree', test='TestEngineCalltree', quick=300, thorough=6000, thorough_seeds=2)],
+                 dict(name='calltree', test='TestEngineCalltree', quick=300, thorough=6000, thorough_seeds=2),
+                 dict(name='block', test='TestEngineBlock', quick=250, thorough=3000, thorough_seeds=2, no_model=True)],   # oracle C03-vmerr-leaves-more-than-the-fee only: real transactions that end with a VM error
         rule='random cStateDb API sequences (19 op kinds incl. precompile-style bank/allowance writes through GetCurrentContext, nested snapshot/revert incl. invalid ids, commit) on a real chain context with base/contract/module/vesting fixtures; full getter dump after every op; non-trivial = a real op line (not world set-up); distinct by (op line) hash',
         assumptions=['cachekv CacheContext is a value copy of its parent for reads and isolates writes until write() (SDK contract; exercised by every revert in E-statedb)',
                      'the interpreter uses the StateDB only as snapshot; body; revert-on-failure (evm.Call/Create) — call-tree theorem; arbitrary API sequences are covered by C03_revert_exact'],
